@@ -129,7 +129,7 @@ def oracle_trigger(run):
 
 def register(PROPS, COMPONENTS):
     COMPONENTS["trigger"] = dict(client="trigger", driver="trigger", directed_runs=6, quick_runs=6000, thorough_runs=60000,
-                                 oracle=oracle_trigger)
+                                 oracle=oracle_trigger, cov_headers=["gmlc/concurrency/TriggerVariable.hpp"])
     PROPS["C11"] = dict(
         lean_files=["ConcVerif/Props/C11.lean"], components=["trigger"], stage="B",
         level_text="Lean 4 theorems (kernel-checked; any number of threads, any mix of the nine public methods, any "
